@@ -366,11 +366,11 @@ def optoken(opname):
     return opname.lstrip('.')
 
 
-def check_cell(ctx, MT, cn, opname, m, n, res, table, spy_log, replay, decode=True, right_kind='seq', dunder=None):
+def check_cell(ctx, MT, cn, opname, m, n, res, table, spy_log, replay, decode=True, right_kind='seq', dunder=None, variant=''):
     """res = ('ok', value) | ('raise', ex) of the real operator on operands holding m and n values;
     table[i][j] = single-valued reference for elements (i, j) (n == 's': one column).  Returns nothing; reports."""
     site = f"{definer(cn, dunder) if dunder else cn}.{optoken(opname)}"
-    site = REPAIRED_SITES.get(site, site)
+    site = REPAIRED_SITES.get(site, site) + variant
     replay = dict(replay, concrete_class=cn)
     nn = 1 if right_kind != 'seq' else n
     cell = 'Mxscalar' if right_kind == 'scalar' else ('1x1' if (m, nn) == (1, 1) else '1xM' if m == 1 else 'Mx1' if nn == 1 else 'MxM' if m == nn else 'MxN')
@@ -945,6 +945,55 @@ def twist_exp_grid(ctx, MT):
                            {'class': cn, 'method': 'exp', 'm': m, 'theta': th.tolist(), 'elements_hex': [hexl(a) for a in A[:m]]})
 
 
+# --------------------------------------------------------------------------------------------- aliased operands
+# The operator grid combines DISTINCT objects.  Here the two operands are the same object (x op x), or one is an element / a slice
+# of the other (which shares the value arrays): the result must be what two independent objects holding the same values give.
+# Model side this is the instance left = right of the general theorems (C09_binop_same_operand, C09_op2_same_operand).
+def alias_grid(ctx, MT):
+    rng = ctx.rng
+    for cn in CLASSES:
+        A = [elem(cn, rng) for _ in range(NMAX)]
+        As, Cs = singles(mk(cn, A)), singles(mk(cn, A))          # two independent sets of single-valued objects with the same values
+        ops = [(o, f, d, True) for o, f, d in BINOPS if defined_in_library(cn, d)] + [(o, f, d, False) for o, f, d in EQOPS]
+        if cn in ('Quaternion', 'UnitQuaternion'):
+            ops.append(('.inner', lambda a, b: a.inner(b), 'inner', True))
+        for opname, op, dunder, decode in ops:
+            refs = [[call(lambda: op(As[i], Cs[j])) for j in range(NMAX)] for i in range(NMAX)]
+            if not all(r[0] == 'ok' and single_value(r[1]) is not None for row in refs for r in row):
+                continue                                            # operator not available for single values: out of scope (operator grid says so)
+            table = [[single_value(r[1]) for r in row] for row in refs]
+            for m in LENS:
+                def run(kind, make_right, cols, n):
+                    """cols[j] = index into A of the j-th value of the right operand"""
+                    X = mk(cn, A[:m])
+                    R = make_right(X)
+                    before = [np.array(a) for a in X.data]
+                    with Spy() as spy:
+                        res = call(lambda: op(X, R))
+                    tab = [[table[i][cols[j]] for j in range(n)] for i in range(m)]
+                    check_cell(ctx, MT, cn, opname, m, n, res, tab, spy.log,
+                               {'class': cn, 'op': opname, 'aliasing': kind, 'm': m, 'n': n, 'values_hex': [hexl(a) for a in A[:m]]},
+                               decode=decode and len(set(cols[:n])) == n, dunder=dunder, variant=f'[{kind}]')
+                    ctx.count('oracle:alias-cells')
+                    if len(X) != m or not all(np.array_equal(a, b) for a, b in zip(before, X.data)):
+                        ctx.fail(f'oracle:alias:{definer(cn, dunder)}.{optoken(opname)}:operand-changed', f"{cn}: X {opname} ({kind}) changed the values held by X",
+                                 {'class': cn, 'op': opname, 'aliasing': kind, 'm': m})
+                run('x-op-x', lambda X: X, list(range(m)), m)
+                run('x-op-element-of-x', lambda X: X[0], [0], 1)
+                run('x-op-last-element-of-x', lambda X: X[m - 1], [m - 1], 1)
+                run('x-op-full-slice-of-x', lambda X: X[0:m], list(range(m)), m)
+                if m >= 2:
+                    run('x-op-reversed-slice-of-x', lambda X: X[::-1], list(range(m - 1, -1, -1)), m)
+                # element of x on the LEFT
+                X = mk(cn, A[:m])
+                with Spy() as spy:
+                    res = call(lambda: op(X[0], X))
+                check_cell(ctx, MT, cn, opname, 1, m, res, [[table[0][j] for j in range(m)]], spy.log,
+                           {'class': cn, 'op': opname, 'aliasing': 'element-of-x-op-x', 'm': 1, 'n': m, 'values_hex': [hexl(a) for a in A[:m]]},
+                           decode=decode, dunder=dunder, variant='[element-of-x-op-x]')
+                ctx.count('oracle:alias-cells')
+
+
 # --------------------------------------------------------------------------------------------- keyword options
 # The grids above call every method with its DEFAULT options.  Here every keyword option of every vectorised method is swept
 # (the options are read from the signature by reflection; the values come from OPTION_VALUES by parameter name, object-valued
@@ -1225,6 +1274,9 @@ def run(ctx):
         for _ in range(ctx.n(1, 8)):
             interp_grid(ctx, MT)
             twist_exp_grid(ctx, MT)
+    with ctx.timed('oracle:aliasing'):
+        for _ in range(ctx.n(1, 4)):
+            alias_grid(ctx, MT)
     with ctx.timed('oracle:options'):
         for _ in range(ctx.n(1, 4)):
             option_grid(ctx)
